@@ -126,11 +126,11 @@ func (p *Plan) FaultFree() bool {
 			}
 			if r.Trigger != nil {
 				switch r.Trigger.Action.Kind {
-				case ActStart, ActStop, ActStopCtx:
+				case ActStart, ActStop, ActStopCtx, ActCancelCtx:
 				default:
 					return false
 				}
-				if f := r.Trigger.Follow; f != nil && f.Kind != ActStart && f.Kind != ActStop && f.Kind != ActStopCtx {
+				if f := r.Trigger.Follow; f != nil && f.Kind != ActStart && f.Kind != ActStop && f.Kind != ActStopCtx && f.Kind != ActCancelCtx {
 					return false
 				}
 			}
@@ -147,7 +147,7 @@ func (p *Plan) FaultFree() bool {
 	}
 	for _, a := range p.Timeline {
 		switch a.Kind {
-		case ActStart, ActStop, ActStopCtx, ActProbe:
+		case ActStart, ActStop, ActStopCtx, ActProbe, ActCancelCtx:
 		default:
 			return false
 		}
